@@ -27,12 +27,12 @@ try:
     log['unit_tests_pass_with_patch'] = '100% tests passed' in out
     log['unit_tests_tail'] = out[-200:]
     cmd = re.split(r'\s{2,}\(|\s\(|\s#', meta.get('demo_build_cmd', ''))[0].strip()
-    run = re.split(r'\s{2,}|\s\(|\s#', meta.get('demo_run_cmd', './demo'))[0].strip() or './demo'
+    run = re.split(r'\s{2,}|\s\(|\s#|\s\[', meta.get('demo_run_cmd', './demo'))[0].strip() or './demo'
     res = {}
     for name, tree in (('patched', pat), ('clean', clean)):
         wd = '/var/tmp/seedv-%s-demo-%s' % (sid, name)
         shutil.rmtree(wd, ignore_errors=True); shutil.copytree(src, wd)
-        c = re.sub(r'/tmp/%s-%s' % (root, prop), tree, cmd)
+        c = re.sub(r'/tmp/%s-%s' % (root, prop), tree, cmd).replace('<worktree>', tree).replace('<wt>', tree)
         c = re.sub(r'/tmp/%s-out/%s/%s/?' % (root, prop, ab), wd + '/', c)
         if not c.strip():
             c = 'g++ -std=gnu++17 -I%s/include demo.cpp %s/src/*.cpp %s/src/*/*.cpp -lpthread -lrt -ldl -o demo' % (tree, tree, tree)
